@@ -70,6 +70,31 @@ ProtoFails(res, S, adapt, k, panicked) ==
            THEN res[i].lo = rb[i] /\ res[i].hi = <<rb[i]>>
            ELSE res[i].lo <= rb[i] /\ (res[i].hi = <<>> \/ rb[i] <= res[i].hi[1]), "iter_hint")
 
+\* Positional semantics against a reference order `ref` (sequence of keys: what a plain forward traversal of
+\* the same iterator kind yields - taken from the same queue for the borrowing iterators, from a clone for the
+\* consuming ones): next = the front element, next_back = the back element, nth(k) / nth_back(k) skip k
+\* elements at their end, last() = the back element.  PosWalk returns the tag "iter_position" when a call
+\* yields another element than the DoubleEndedIterator contract dictates.
+RECURSIVE PosWalk(_,_,_,_,_)
+PosWalk(res, ref, i, f, b) ==          \* f, b: 0-based cursors into ref: the remaining range is f..b-1
+  IF i > Len(res) THEN {} ELSE
+  LET x == res[i] IN
+  IF x.st # "done" \/ x.c \in {2, 3, 7} THEN PosWalk(res, ref, i+1, IF x.st = "done" /\ x.c = 7 THEN b ELSE f, b) ELSE
+  LET want == CASE x.c = 0 -> IF f < b THEN <<ref[f+1]>> ELSE <<>>
+                [] x.c = 1 -> IF f < b THEN <<ref[b]>> ELSE <<>>
+                [] x.c = 4 -> IF f + x.k < b THEN <<ref[f+x.k+1]>> ELSE <<>>
+                [] x.c = 5 -> IF b - x.k > f THEN <<ref[b-x.k]>> ELSE <<>>
+                [] x.c = 6 -> IF f < b THEN <<ref[b]>> ELSE <<>>
+      f2 == CASE x.c = 0 -> IF f < b THEN f + 1 ELSE f
+               [] x.c = 4 -> IF f + x.k < b THEN f + x.k + 1 ELSE b
+               [] x.c = 6 -> b
+               [] OTHER -> f
+      b2 == CASE x.c = 1 -> IF f < b THEN b - 1 ELSE b
+               [] x.c = 5 -> IF b - x.k > f THEN b - x.k - 1 ELSE f
+               [] OTHER -> b
+      got == IF x.y = <<>> THEN <<>> ELSE <<x.y[1].k>> IN
+  T(got = want, "iter_position") \cup PosWalk(res, ref, i+1, f2, b2)
+
 \* sorted iterators: every step yields an extreme of what remains (PriorityQueue: maximum first;
 \* DoublePriorityQueue: front = minimum, back = maximum); last() yields the opposite extreme.  Only for
 \* sequences without nth / nth_back (whose skipped elements are not observed).
